@@ -23,14 +23,25 @@
                       (today only to ACTIVE, so the pair stays dual-active until the solo node has
                       re-elected and sent another heartbeat)
 
+     fix_sa = false   handlePeerHeartbeat re-discovers the peer only on first contact, in WAITING or
+                      in ACTIVE_SOLO; it relies on "STANDBY_ALONE implies peerNodeID == ''", which
+                      handlePeerLost breaks when a heartbeat is handled between its two critical
+                      sections (visible only in the fine-grained model below)
+     fix_sa = true    ... also in STANDBY_ALONE
+     fix_ia = false   handleInterfaceEvent updates the down count under m.mu and calls
+                      AdjustPriority after releasing it (two critical sections)
+     fix_ia = true    ... AdjustPriority is called before m.mu is released (one critical section)
+
+   Node ids are Go strings compared bytewise: lists of bytes with [str_ltb].
    Priorities are uint32 in Go; they are Z here, the int32 conversions of
    handleInterfaceEvent / AdjustPriority are written out with [i32]. *)
 From OV Require Import Common.Base.
 Local Open Scope Z_scope.
 
-Record variant := mkVariant { fix_hb : bool; fix_if : bool; fix_fc : bool }.
-Definition Repaired  := mkVariant true true true.
-Definition Defective := mkVariant false false false.
+Record variant := mkVariant { fix_hb : bool; fix_if : bool; fix_fc : bool; fix_sa : bool; fix_ia : bool }.
+Definition Repaired  := mkVariant true true true true true.       (* all five repairs *)
+Definition Head      := mkVariant true true true false false.     (* /repo HEAD: first three fixes committed *)
+Definition Defective := mkVariant false false false false false.  (* the code before any fix *)
 
 (* SRGState *)
 Inductive sst := Init | Waiting | Ready | Active | Standby | ActiveSolo | StandbyAlone.
@@ -49,7 +60,7 @@ Definition is_active (s : sst) : bool :=
 (* per-node configuration: HAConfig.NodeID and the SRGConfig of the group.
    c_nifs = number of configured interfaces that resolve (interface k has sw_if_index k) *)
 Record cfg := mkCfg {
-  c_id : N; c_prio : Z; c_preempt : bool; c_dec : Z; c_nifs : nat }.
+  c_id : list N; c_prio : Z; c_preempt : bool; c_dec : Z; c_nifs : nat }.
 
 (* SRGStateMachine fields + the Manager fields that belong to the group *)
 Record node := mkNode {
@@ -85,9 +96,18 @@ Definition transition_to (n : node) (s : sst) : node * list trans :=
 Definition sm_start (n : node) : node * list trans :=
   match n_st n with Init => transition_to n Waiting | _ => (n, []) end.
 
+(* Go string comparison a < b: bytewise lexicographic, a proper prefix is smaller *)
+Fixpoint str_ltb (a b : list N) : bool :=
+  match a, b with
+  | _, [] => false
+  | [], _ :: _ => true
+  | x :: a', y :: b' => if (x <? y)%N then true else if (y <? x)%N then false else str_ltb a' b'
+  end.
+Definition nonempty (a : list N) : bool := match a with [] => false | _ => true end.
+
 (* winsElection *)
-Definition wins (c : cfg) (n : node) (peerid : N) : bool :=
-  if negb (n_eff n =? n_pprio n) then n_pprio n <? n_eff n else (c_id c <? peerid)%N.
+Definition wins (c : cfg) (n : node) (peerid : list N) : bool :=
+  if negb (n_eff n =? n_pprio n) then n_pprio n <? n_eff n else str_ltb (c_id c) peerid.
 
 (* PeerDiscovered *)
 Definition peer_discovered (n : node) (p : Z) (ps : sst) : node * list trans :=
@@ -98,7 +118,7 @@ Definition peer_discovered (n : node) (p : Z) (ps : sst) : node * list trans :=
   end.
 
 (* Elect *)
-Definition elect (c : cfg) (n : node) (peerid : N) : node * list trans :=
+Definition elect (c : cfg) (n : node) (peerid : list N) : node * list trans :=
   match n_st n with
   | Ready => if wins c n peerid then transition_to n Active else transition_to n Standby
   | _ => (n, [])
@@ -137,7 +157,7 @@ Definition adjust_priority (c : cfg) (n : node) (delta : Z) : node :=
   set_eff n (if newp <? 0 then 0 else newp).
 
 (* PeerHeartbeatUpdate *)
-Definition hb_update (v : variant) (c : cfg) (n : node) (p : Z) (peerid : N) (ps : sst)
+Definition hb_update (v : variant) (c : cfg) (n : node) (p : Z) (peerid : list N) (ps : sst)
   : node * list trans :=
   let n := set_peer n p ps in
   if c_preempt c && sst_eqb (n_st n) Standby && wins c n peerid then transition_to n Active
@@ -152,16 +172,17 @@ Definition hb_update (v : variant) (c : cfg) (n : node) (p : Z) (peerid : N) (ps
 (* HeartbeatMessage restricted to the group: NodeId, SRGStatus.State, SRGStatus.Priority;
    h_req = true for a message sent on the sender's client stream (the receiving server
    replies), false for such a reply *)
-Record hb := mkHb { h_id : N; h_st : sst; h_prio : Z; h_req : bool }.
+Record hb := mkHb { h_id : list N; h_st : sst; h_prio : Z; h_req : bool }.
 
 (* buildHeartbeatMessage *)
 Definition snapshot (c : cfg) (n : node) (req : bool) : hb := mkHb (c_id c) (n_st n) (n_eff n) req.
 
-(* Manager.handlePeerHeartbeat (node ids are non-empty strings) *)
+(* Manager.handlePeerHeartbeat as ONE atomic step (peerNodeID = msg.NodeId: an empty id keeps it "") *)
 Definition handle_hb (v : variant) (c : cfg) (n : node) (m : hb) : node * list trans :=
   let first := negb (n_pknown n) in
-  let n := set_pknown n true in
-  if first || sst_eqb (n_st n) Waiting || sst_eqb (n_st n) ActiveSolo then
+  let n := set_pknown n (nonempty (h_id m)) in
+  if first || sst_eqb (n_st n) Waiting || sst_eqb (n_st n) ActiveSolo
+     || (fix_sa v && sst_eqb (n_st n) StandbyAlone) then
     let '(n1, t1) := peer_discovered n (h_prio m) (h_st m) in
     if sst_eqb (n_st n1) Ready then
       let '(n2, t2) := elect c n1 (h_id m) in (n2, t1 ++ t2)
@@ -188,7 +209,20 @@ Definition tracked (c : cfg) (k : nat) : bool :=
 Definition mem_nat (k : nat) (l : list nat) : bool := existsb (Nat.eqb k) l.
 Definition remove_nat (k : nat) (l : list nat) : list nat := filter (fun x => negb (Nat.eqb k x)) l.
 
-(* Manager.handleInterfaceEvent; down = !LinkUp || Deleted *)
+(* handleInterfaceEvent, m.mu section: update of ifDown / ifDownCount *)
+Definition track_update (v : variant) (n : node) (k : nat) (down : bool) : node :=
+  if fix_if v then
+    if Bool.eqb down (mem_nat k (n_down n)) then n
+    else if down then set_track n (n_cnt n + 1) (k :: n_down n)
+         else set_track n (n_cnt n - 1) (remove_nat k (n_down n))
+  else
+    if down then set_track n (n_cnt n + 1) (n_down n)
+    else if 0 <? n_cnt n then set_track n (n_cnt n - 1) (n_down n)
+         else n.
+(* delta := -int32(TrackPriorityDecrement) * int32(downCount) *)
+Definition if_delta (c : cfg) (n : node) : Z := i32 (i32 (- i32 (c_dec c)) * i32 (n_cnt n)).
+
+(* Manager.handleInterfaceEvent as ONE atomic step; down = !LinkUp || Deleted *)
 Definition handle_if (v : variant) (c : cfg) (n : node) (k : nat) (down : bool)
   : node * list trans :=
   if negb (tracked c k) then (n, []) else
